@@ -655,11 +655,65 @@ def series_values(db, name, span):
 # through Simultaneous.kalman_filter
 # ---------------------------------------------------------------------------------------
 
-def gen_e2e_case(rng, nper_max=10, unit_root=False):
+def gen_sel(rng, nper):
+    """positions of a filter span that is not a consecutive run: an arithmetic progression (ir.Span with a step) or hand-picked"""
+    if rng.chance(0.5):
+        step = rng.randint(2, 3); lo = rng.randint(0, 1)
+        sel = list(range(lo, nper, step))
+    else:
+        sel = sorted(rng.sample(range(nper), rng.randint(2, max(2, nper - 2))))
+    if len(sel) < 2 or sel == list(range(sel[0], sel[-1] + 1)):
+        sel = [0, nper - 1] if nper > 2 else None
+    return sel
+
+
+def gen_e2e_case(rng, nper_max=10, unit_root=False, noncontiguous=False):
     mc = gen_model(rng, unit_root=unit_root)
-    nper = rng.randint(4 if unit_root else 3, nper_max)
+    nper = rng.randint(5 if noncontiguous else (4 if unit_root else 3), nper_max)
     data = gen_data(rng, mc, nper)
-    return {"mc": mc, "data": data, "deviation": bool(rng.chance(0.3)) and not unit_root, "rescale": bool(rng.chance(0.3))}
+    case = {"mc": mc, "data": data, "deviation": bool(rng.chance(0.3)) and not unit_root, "rescale": bool(rng.chance(0.3))}
+    if noncontiguous:
+        # observations in the in-between periods are present in the databox and must not be used
+        p_miss = 0.15
+        data["mask"] = [[0 if rng.chance(p_miss) else 1 for _ in r] for r in data["mask"]]
+        data["std_e_t"] = None; data["std_w_t"] = None
+        case["sel"] = gen_sel(rng, nper); case["sel_as_span"] = bool(rng.chance(0.7))
+        if not any(any(data["mask"][t]) for t in case["sel"]):
+            data["mask"][case["sel"][0]][0] = 1
+    return case
+
+
+def gen_callseq_case(rng, nper_max=8):
+    """a sequence of calls on ONE solved model object, options drawn independently per call"""
+    mc = gen_model(rng)
+    nper = rng.randint(5, nper_max)
+    data = gen_data(rng, mc, nper)
+    calls = []
+    for i in range(rng.randint(3, 4)):
+        kind = rng.weighted([("filter", 6), ("nll", 2), ("simulate", 2)])
+        call = {"kind": kind, "deviation": bool(rng.chance(0.5)), "rescale": bool(rng.chance(0.25)), "sel": None}
+        if kind != "simulate" and rng.chance(0.3):
+            call["sel"] = gen_sel(rng, nper); call["sel_as_span"] = bool(rng.chance(0.7))
+        elif kind != "simulate" and rng.chance(0.3):
+            a = rng.randint(0, nper - 3); call["sel"] = None; call["sub"] = [a, rng.randint(a + 2, nper - 1)]
+        calls.append(call)
+    if not any(c["kind"] == "filter" for c in calls[1:]):
+        calls.append({"kind": "filter", "deviation": not calls[0]["deviation"], "rescale": False, "sel": None})
+    return {"mc": mc, "data": data, "calls": calls}
+
+
+def callseq_subcase(case, call):
+    """the e2e case of one call of a sequence (sub-spans are expressed as a consecutive `sel`)"""
+    data = case["data"]
+    c = {"mc": case["mc"], "data": data, "deviation": call["deviation"], "rescale": call["rescale"], "sel": call.get("sel"),
+         "sel_as_span": call.get("sel_as_span", True)}
+    if call.get("sub"):
+        a, b = call["sub"]
+        c["sel"] = list(range(a, b + 1)); c["sel_as_span"] = True
+    if c["sel"] is not None and data["std_e_t"] is not None:
+        data = dict(data); data["std_e_t"] = None; data["std_w_t"] = None
+        c["data"] = data
+    return c
 
 
 def e2e_span(nper):
@@ -678,22 +732,59 @@ def steady_logscale(mc):
     return sbar[:nx], Z @ sbar + D
 
 
-def run_e2e(case, m=None, **extra):
-    """kalman_filter on the case; deviation cases get data minus steady state (log-variables: divided by it)"""
+def effective(case):
+    """a filter span that is not a consecutive run (`sel` = the selected period positions): the filter runs through every period
+    from the first to the last selected one, only observations dated in the selected periods are data; the periods in between are
+    periods without observations.  Returns the equivalent case on the contiguous range (identity when `sel` is None)."""
+    sel = case.get("sel")
+    if sel is None:
+        return case
+    d = case["data"]; lo, hi = min(sel), max(sel); ny = len(case["mc"]["logy"])
+    de = dict(d)
+    de["y"] = d["y"][lo:hi + 1]
+    de["mask"] = [list(d["mask"][t]) if t in sel else [0] * ny for t in range(lo, hi + 1)]
+    de["std_e_t"] = d["std_e_t"][lo:hi + 1] if d["std_e_t"] is not None else None
+    de["std_w_t"] = d["std_w_t"][lo:hi + 1] if d["std_w_t"] is not None else None
+    de["nper"] = hi - lo + 1
+    ce = dict(case); ce["data"] = de; ce["sel"] = None
+    return ce
+
+
+def prepare_e2e(case, m=None):
+    """model object, input databox (ALL periods of the data, also those not in the filter span), the span handed to the filter,
+    the contiguous span the filter runs through, keyword arguments"""
+    import irispie as ir
     mc, data = case["mc"], case["data"]
     m = m or build_model(mc)
     start, span = e2e_span(data["nper"])
     dev_of = steady_logscale(mc)[1] if case["deviation"] else None
     db = databox_of(mc, data, start, deviation_of=dev_of)
-    kw = dict(return_info=True, stds_from_data=data["std_e_t"] is not None, deviation=case["deviation"],
-              rescale_variance=case["rescale"])
+    kw = dict(stds_from_data=data["std_e_t"] is not None, deviation=case["deviation"], rescale_variance=case["rescale"])
+    sel = case.get("sel")
+    if sel is None:
+        return m, db, span, span, kw
+    lo, hi = min(sel), max(sel)
+    steps = set(b - a for a, b in zip(sel, sel[1:]))
+    if len(steps) == 1 and case.get("sel_as_span", True):
+        fspan = ir.Span(start + lo, start + hi, steps.pop())
+    else:
+        fspan = tuple(start + i for i in sel)
+    return m, db, fspan, (start + lo) >> (start + hi), kw
+
+
+def run_e2e(case, m=None, **extra):
+    """kalman_filter on the case; deviation cases get data minus steady state (log-variables: divided by it); returns the
+    contiguous span the filter runs through (= the filter span unless `sel` is given)"""
+    m, db, fspan, span, kw = prepare_e2e(case, m)
+    kw = dict(kw, return_info=True)
     kw.update(extra)
-    out, info = m.kalman_filter(db, span, **kw)
+    out, info = m.kalman_filter(db, fspan, **kw)
     return m, db, span, out, info
 
 
 def e2e_batch(case) -> Batch:
     """joint Gaussian of the case from the coefficient arrays alone (companion form, own Lyapunov solve)"""
+    case = effective(case)
     mc, data = case["mc"], case["data"]
     T, P, K, Z, H, D = companion(mc)
     mean, Q, xi = initial_law(mc)
@@ -740,6 +831,7 @@ def lean_case_of_e2e(case, m):
     """the filter's own inputs (triangular solution, initial moments, per-period stds and data) as a direct-stream case"""
     from irispie.fords import initializers
     from irispie.fords.descriptors import Squid
+    case = effective(case)
     mc, data = case["mc"], case["data"]
     sol = m._gets_solution(deviation=case["deviation"])
     cov_u = m._gets_cov_transition_shocks()
